@@ -2344,9 +2344,8 @@ func (x *TX) counterName(phi *ssa.Phi) (string, bool) {
 // of its header?
 func (x *TX) counterEscapes(phi *ssa.Phi) bool {
 	h := phi.Block()
-	inLoop := func(b *ssa.BasicBlock) bool {
-		return b == h || (h.Dominates(b) && x.fi.reach[b.Index][h.Index])
-	}
+	nl := naturalLoop(h)
+	inLoop := func(b *ssa.BasicBlock) bool { return nl[b] }
 	seen := map[ssa.Value]bool{}
 	var walk func(v ssa.Value, depth int) bool
 	walk = func(v ssa.Value, depth int) bool {
@@ -2662,4 +2661,28 @@ func valueUsesBehindErrCheck(c *ssa.Call, commaOK bool) bool {
 		}
 	}
 	return true
+}
+
+// naturalLoop: the header and the blocks that reach one of its back-edge sources without
+// passing the header.
+func naturalLoop(h *ssa.BasicBlock) map[*ssa.BasicBlock]bool {
+	in := map[*ssa.BasicBlock]bool{h: true}
+	var stack []*ssa.BasicBlock
+	for _, pr := range h.Preds {
+		if h.Dominates(pr) && !in[pr] {
+			in[pr] = true
+			stack = append(stack, pr)
+		}
+	}
+	for len(stack) > 0 {
+		b := stack[len(stack)-1]
+		stack = stack[:len(stack)-1]
+		for _, pr := range b.Preds {
+			if !in[pr] {
+				in[pr] = true
+				stack = append(stack, pr)
+			}
+		}
+	}
+	return in
 }
